@@ -4,6 +4,8 @@ extern crate std;
 use std::{vec, vec::Vec};
 use super::*;
 use crate::options::{ColorInversion, TearingEffect};
+#[allow(unused_imports)]
+use crate::interface::Interface;
 use crate::vk_support::*;
 
 /// std contract used by the Verus wrapper vf::u16_to_be_bytes
